@@ -14,7 +14,7 @@ void harness_init() {}
 size_t harness_max_len() { return 600; }
 
 static const uint64_t kTags[] = {0x01, 0x1f, 0x20, 0x00, 0xff, 0x100, 0x1fff, 0x0800};
-static const uint64_t kLens[] = {0, 1, 2, 0xfe, 0xff, 0x100, 0x101, 0x7fff, 0xfffb, 0xfffc, 0xfffd, 0xfffe, 0xffff};
+static const uint64_t kLens[] = {0, 1, 2, 0xfe, 0xff, 0x100, 0x101, 0x7fff, 0xfffb, 0xfffc, 0xfffd, 0xfffe, 0xffff, 0x10000, 0x10001};
 
 static Bytes fill(Dec &d, size_t n) { Bytes b(n); uint8_t s = d.byte(); uint8_t st = d.byte() | 1; for (size_t i = 0; i < n; i++) { b[i] = s; s = (uint8_t)(s + st); } return b; }
 
@@ -27,7 +27,7 @@ static Tlv genTree(Dec &d, int depth, size_t &budget, std::string &shape) {
         shape += ")";
     } else {
         size_t len; unsigned c = d.pick(32);
-        if (c < 24) len = d.pick(48); else if (c < 27) len = (size_t)kLens[d.pick(7)]; else if (c < 30) len = (size_t)kLens[d.pick(13)]; else len = d.pick(65536);
+        if (c < 24) len = d.pick(48); else if (c < 27) len = (size_t)kLens[d.pick(7)]; else if (c < 30) len = (size_t)kLens[d.pick(15)]; else len = d.pick(65536);
         if (len > budget) len = budget > 0 ? budget % 300 : 0;
         budget -= len; t.payload = fill(d, len);
         shape += len == 0 ? "e" : (len <= 0xff ? "s" : (len >= 0xfffb ? "B" : "l"));
@@ -210,7 +210,10 @@ static void elementCodec(Dec &d, Case &c, const Tlv &t, bool fits, const Bytes &
             res = KSI_TlvElement_detach(el);
             if (res != KSI_OK) VF_FAIL(c, "C09:element:detach-failed", "detach failed res=" + num(res));
             else { HeapBuf hb(want.size()); size_t got = 0; res = KSI_TlvElement_serialize(el, hb.p, want.size(), &got, 0);
-                VF_CHECK(c, res == KSI_OK && got == want.size() && !memcmp(hb.p, want.data(), got), "C09:element:detach-differs", "serialization after detach differs"); }
+                VF_CHECK(c, res == KSI_OK && got == want.size() && !memcmp(hb.p, want.data(), got), "C09:element:detach-differs", "serialization after detach differs");
+                // an element that already owns its buffer is detached again
+                if (!c.fail) { int r6 = KSI_TlvElement_detach(el); HeapBuf h2(want.size()); size_t g2 = 0; int r7 = KSI_TlvElement_serialize(el, h2.p, want.size(), &g2, 0);
+                    VF_CHECK(c, r6 == KSI_OK && r7 == KSI_OK && g2 == want.size() && !memcmp(h2.p, want.data(), g2), "C09:element:second-detach-differs", "serialization after a second detach differs"); c.cls("element:detached-twice"); } }
         }
     }
     KSI_TlvElement_free(el);
